@@ -437,6 +437,7 @@ func runC11(e *Env) error {
 	})
 	if e.Replay == "" && e.Atlas != "" {
 		c11CLI(e, pool)
+		c11CLIScripted(e, pool)
 	}
 	return nil
 }
